@@ -1,8 +1,8 @@
-SPECIFICATION Spec
+SPECIFICATION FairSpec
 CONSTANTS
-  REQ = {1, 2, 3, 4}
+  REQ = {1, 2}
   T = 2
-  ACCEPT = {0}
+  ACCEPT = {0, 1}
   DELAY = {1, 2, 3}
   EX = 0
   INST = {0}
@@ -10,9 +10,9 @@ CONSTANTS
   PRICE = {10}
   QTY = {1}
   BUNDLE = {"lim"}
-  STALL = {}
+  STALL = {2, 3}
   LateResponseOK = TRUE
-  NoTimeout = FALSE
+  NoTimeout = TRUE
 INVARIANTS TypeOK AtMostOne ExactlyOnce Kind Attribution
-PROPERTIES Stable
+PROPERTIES Answers Stable
 CHECK_DEADLOCK FALSE
